@@ -759,7 +759,12 @@ def call_pandas(it, fn, args, kwargs, node, fr):
             return f
         a = as_arr(data) if data is not None else None
         if a is not None and names is not None and len(names) == len(a.cols):
-            f = Frame(dict(zip(names, a.cols)), list(names), name="new", space=a.space)
+            cols_ = list(a.cols)
+            dt_ = kwargs.get("dtype")
+            if dt_ is not None and isinstance(dt_, Ref) and dt_.name in ("numpy.float32", "numpy.single", "numpy.float16", "numpy.half", "numpy.int16",
+                                                                       "numpy.int8", "numpy.uint8", "numpy.uint16", "numpy.int32"):
+                cols_ = [call("cast", c_, to_term(dt_)) for c_ in cols_]  # a narrower storage type: values (e.g. large ids) are rounded / wrapped
+            f = Frame(dict(zip(names, cols_)), list(names), name="new", space=a.space)
             f.labels_positional = True
             f.alloc = getattr(a, "alloc", None)
             return f
@@ -1269,6 +1274,8 @@ def val_method(it, v, name, args, kwargs, node, fr):
             r.lab = v.lab
         if getattr(v, "lab", None) is not None and name == "reset_index":
             r.lab = ("pos", object())
+        if name in ("reshape", "view", "squeeze") and getattr(v, "view_of", None) is not None:
+            r.view_of = v.view_of  # still a view of the same column
         for a in ("of_frame", "colname", "sorted_by", "descending", "alloc", "mask", "axes", "alloc_shape"):
             if hasattr(v, a):
                 setattr(r, a, getattr(v, a))
